@@ -232,6 +232,15 @@ fn literal_macros() -> Vec<(&'static str, Box<dyn Fn() -> Narsese>, &'static str
         ("$$ A.", Box::new(|| nse!("$$ A.")), "K<S<W\"A\"|.|eternal|[]>|[]>"),
         ("(&/, <A --> B>, +5, <C --> D>)", Box::new(|| nse!("(&/, <A --> B>, +5, <C --> D>)")), "T<Seq(Inh(W\"A\",W\"B\"),+5,Inh(W\"C\",W\"D\"))>"),
         ("<(*, $x, #y) --> ^op>", Box::new(|| nse!("<(*, $x, #y) --> ^op>")), "T<Inh(Prod($\"x\",#\"y\"),^\"op\")>"),
+        // string literals with whitespace other than blanks (the macros strip *all* whitespace)
+        ("<A\t-->\nB>.", Box::new(|| nse!("<A\t-->\nB>.")), "S<Inh(W\"A\",W\"B\")|.|eternal|[]>"),
+        ("$0.5; 0.5; 0.5$\n            <A --> B>.\n            %1.0; 0.9%", Box::new(|| nse!("$0.5; 0.5; 0.5$
+            <A --> B>.
+            %1.0; 0.9%")), "K<S<Inh(W\"A\",W\"B\")|.|eternal|[3ff0000000000000,3feccccccccccccd]>|[3fe0000000000000,3fe0000000000000,3fe0000000000000]>"),
+        ("(&&,\u{3000}A,\u{a0}B)\r\n", Box::new(|| nse!("(&&,\u{3000}A,\u{a0}B)\r\n")), "T<Conj{W\"A\",W\"B\"}>"),
+        ("<A\t-->\tB>", Box::new(|| Narsese::Term(narsese::enum_nse_term!("<A\t-->\tB>"))), "T<Inh(W\"A\",W\"B\")>"),
+        ("<A --> B>.\n", Box::new(|| Narsese::Sentence(narsese::enum_nse_sentence!("<A --> B>.\n"))), "S<Inh(W\"A\",W\"B\")|.|eternal|[]>"),
+        ("$0.5$\n<A --> B>.\n:|:", Box::new(|| Narsese::Task(narsese::enum_nse_task!("$0.5$\n<A --> B>.\n:|:"))), "K<S<Inh(W\"A\",W\"B\")|.|present|[]>|[3fe0000000000000]>"),
     ]
 }
 
